@@ -557,6 +557,9 @@ size_t ZSTD_seekable_decompress(ZSTD_seekable* zs, void* dst, size_t len, unsign
                 if (zs->decompressedOffset < offset + len) {
                     /* go back to the start and force a reset of the stream */
                     targetFrame = ZSTD_seekable_offsetToFrameIndex(zs, zs->decompressedOffset);
+                    /* the frame ended before the end position the seek table gives for it :
+                     * table and frame disagree, restarting the same frame would loop forever */
+                    if (targetFrame == zs->curFrame) return ERROR(corruption_detected);
                     /* in this case it will fail later with corruption_detected, since last block does not have checksum */
                     assert(targetFrame != zs->seekTable.tableLen);
                 }
